@@ -17,14 +17,46 @@ import (
 )
 
 type Twin struct {
+	raceBin string
 	bin     string
 	seconds int
 }
 
 type twinReq struct {
+	Mode    string           `json:"mode,omitempty"`
+	Text    string           `json:"text,omitempty"`
 	Harness string           `json:"harness"`
 	Params  map[string]int64 `json:"params"`
 	Vals    []int64          `json:"vals"`
+}
+
+// raceProbe builds (once) a -race variant of the twin and runs the concurrent probe on text.
+// It reports whether the race detector fired.
+func (t *Twin) raceProbe(text string) (bool, error) {
+	if t.raceBin == "" {
+		ov, err := overlayFiles()
+		if err != nil {
+			return false, err
+		}
+		binDir := filepath.Join(verifDir, "bin")
+		ovPath := filepath.Join(binDir, fmt.Sprintf("overlay.race.%d.json", os.Getpid()))
+		b, _ := json.Marshal(map[string]interface{}{"Replace": ov})
+		os.WriteFile(ovPath, b, 0o644)
+		defer os.Remove(ovPath)
+		bin := filepath.Join(binDir, fmt.Sprintf("zzverifrun.race.%d", os.Getpid()))
+		cmd := exec.Command("go", "build", "-race", "-tags", "verif", "-overlay", ovPath, "-o", bin, "./cmd/zzverifrun")
+		cmd.Dir = repoDir
+		cmd.Env = append(goEnv(), "CGO_ENABLED=1")
+		if out, err := cmd.CombinedOutput(); err != nil {
+			return false, fmt.Errorf("race twin does not build: %v %s", err, out)
+		}
+		t.raceBin = bin
+	}
+	req, _ := json.Marshal(twinReq{Mode: "race", Text: text})
+	cmd := exec.Command("timeout", "120", t.raceBin)
+	cmd.Stdin = strings.NewReader(string(req) + "\n")
+	out, _ := cmd.CombinedOutput()
+	return strings.Contains(string(out), "WARNING: DATA RACE"), nil
 }
 
 func buildTwin() (*Twin, error) {
@@ -51,7 +83,12 @@ func buildTwin() (*Twin, error) {
 	return &Twin{bin: bin}, nil
 }
 
-func (t *Twin) Close() { os.Remove(t.bin) }
+func (t *Twin) Close() {
+	os.Remove(t.bin)
+	if t.raceBin != "" {
+		os.Remove(t.raceBin)
+	}
+}
 
 // RunBatch runs the requests in one process (a crash of the process is reported per request).
 func (t *Twin) RunBatch(reqs []twinReq) ([][]string, error) { return t.RunBatchT(reqs, 120) }
